@@ -65,7 +65,13 @@ def run_request(P, np, m, req, target, probes):
     elif kind == "array":
         snap_o = other.tobytes()
     try:
-        if op in BASE:
+        if op == "eval":
+            n = int(req["b"][0])
+            mk = (lambda val: P.CellVariable(m, val)) if target == "cell" else (lambda val: P.FaceVariable(m, val))
+            argv = [v] + [mk(a + k) for k in range(1, n)]
+            fn = lambda *xs: sum((k + 1) * x for k, x in enumerate(xs))
+            res = (P.celleval if n % 2 else P.funceval)(fn, *argv) if target == "cell" else P.faceeval(fn, *argv)
+        elif op in BASE:
             res = PYOP[BASE[op]](other, v)
         elif op == "neg":
             res = -v
